@@ -28,15 +28,17 @@ K("st.take_reset.errtaken", ["C08"], "jxl-render", _IM, _IMM, "handle_take_errta
 # (st.failed_blend_then_render -- the two-call composition "failed blend, then run_with_image returns" -- did not close within
 #  25 GB / 20 min and is not registered; it follows from the per-operation contracts by induction over the call sequence.)
 
-# memory-hungry instantiations (CBMC 14-30 GB: they symbolically explore the drop glue of whole render caches): thorough tier,
-# run two at a time after the others
+# memory-hungry instantiations (CBMC 14-26 GB: they symbolically explore the drop glue of whole render caches) run two at a
+# time after the others. Quick tier keeps the three that guard defect classes actually seen (a failed composite, a failed
+# composite_preprocess, a failed first render); the other hungry ones are thorough-only.
 for _o in OBLIGATIONS:
-    if _o["id"] in ("st.run_with_image.done", "st.blend.none", "st.blend.done_preerr", "st.blend.err"):
+    if _o["id"] in ("st.blend.done_composite", "st.blend.done_preerr", "st.run_with_image.none"):
+        _o["rss_gb"] = 26
+        _o["timeout"] = 1500
+    if _o["id"] in ("st.run_with_image.done", "st.blend.none", "st.blend.err", "st.blend.errtaken", "st.blend.done_skip", "st.run_with_image.blended"):
         _o["tier"] = "thorough"
         _o["rss_gb"] = 26
         _o["timeout"] = 2400
-    if _o["id"] in ("st.blend.done_composite", "st.blend.errtaken", "st.blend.done_skip", "st.run_with_image.none", "st.run_with_image.blended"):
-        _o["rss_gb"] = 18
 
 # C13 / C15: ImageBuffer float conversions (same module, crates/jxl-render/src/image.rs)
 for _fn, _pre in (("cast_to_float", "cast_to_float"), ("convert_to_float_modular", "convert_modular")):
